@@ -190,7 +190,7 @@ def run_shard(spec, tier, seed, budget_s):
         while k < target and not sh.out_of_time():
             k += 1
             samebare = rng.choice([False, False, False, False, False, False, True, True, 'aliasshadow', 'aliasshadow-public'])
-            doc = biased_doc(rng, rng.choice(['small', 'medium', 'medium'] + (['large'] if tier == 'thorough' else [])), samebare)
+            doc = biased_doc(rng, 'large' if k <= 2 else rng.choice(['small', 'medium', 'medium'] + (['large'] if tier == 'thorough' else [])), samebare)
             suite = samebare if isinstance(samebare, str) else ('samebare' if samebare else 'random')
             for s in range(nst):
                 text = surface.render(doc, f'{seed}-{i}-{k}-{s}', {'addr': 'explicit'} if samebare == 'aliasshadow-public' else None)
